@@ -67,7 +67,11 @@ impl<T> Block<T> {
 
     // Gets the length of the next block, if it exists.
     pub(crate) fn next_len(&self, guard: &Guard) -> usize {
+        #[cfg(metrics_verif)]
+        metrics::verif::point("blk.nextlen.pre", &[self as *const _ as i64]);
         let tail = self.next.load(Ordering::Acquire, guard);
+        #[cfg(metrics_verif)]
+        metrics::verif::point("blk.nextlen.post", &[tail.as_raw() as i64]);
         if tail.is_null() {
             return 0;
         }
@@ -78,6 +82,8 @@ impl<T> Block<T> {
 
     /// Gets the current length of this block.
     pub fn len(&self) -> usize {
+        #[cfg(metrics_verif)]
+        metrics::verif::point("blk.len.pre", &[self as *const _ as i64]);
         self.read.load(Ordering::Acquire).trailing_ones() as usize
     }
 
@@ -90,6 +96,8 @@ impl<T> Block<T> {
 
         // We have to clamp self.write since multiple threads might race on filling the last block,
         // so the value could actually exceed BLOCK_SIZE.
+        #[cfg(metrics_verif)]
+        metrics::verif::point("blk.wr.pre", &[self as *const _ as i64]);
         min(self.write.load(Ordering::Acquire), BLOCK_SIZE) == len
     }
 
@@ -110,7 +118,11 @@ impl<T> Block<T> {
     pub fn push(&self, value: T) -> Result<(), T> {
         // Try to increment the index.  If we've reached the end of the block, let the bucket know
         // so it can attach another block.
+        #[cfg(metrics_verif)]
+        metrics::verif::point("blk.claim.pre", &[self as *const _ as i64]);
         let index = self.write.fetch_add(1, Ordering::AcqRel);
+        #[cfg(metrics_verif)]
+        metrics::verif::point("blk.claim.post", &[self as *const _ as i64, index as i64]);
         if index >= BLOCK_SIZE {
             return Err(value);
         }
@@ -120,13 +132,19 @@ impl<T> Block<T> {
         // - Each slot is `MaybeUninit`, which itself can be safely zero initialized.
         // - We're writing an initialized value into the slot before anyone is able to ever read
         //   it, ensuring no uninitialized access.
+        #[cfg(metrics_verif)]
+        metrics::verif::point("blk.write.pre", &[self as *const _ as i64, index as i64]);
         unsafe {
             // Update the slot.
             self.slots.get_unchecked(index).assume_init_ref().get().write(value);
         }
 
         // Scoot our read index forward.
+        #[cfg(metrics_verif)]
+        metrics::verif::point("blk.ack.pre", &[self as *const _ as i64, index as i64]);
         self.read.fetch_or(1 << index, Ordering::AcqRel);
+        #[cfg(metrics_verif)]
+        metrics::verif::point("blk.ack.post", &[self as *const _ as i64, index as i64]);
 
         Ok(())
     }
@@ -137,6 +155,8 @@ unsafe impl<T: Sync> Sync for Block<T> {}
 
 impl<T> Drop for Block<T> {
     fn drop(&mut self) {
+        #[cfg(metrics_verif)]
+        metrics::verif::point("blk.drop.post", &[self as *const _ as i64]);
         while !self.is_quiesced() {}
 
         // SAFETY:
@@ -148,6 +168,8 @@ impl<T> Drop for Block<T> {
                 self.slots.get_unchecked(i).assume_init_ref().get().drop_in_place();
             }
         }
+        #[cfg(metrics_verif)]
+        metrics::verif::point("blk.dropped.post", &[self as *const _ as i64]);
     }
 }
 
@@ -199,7 +221,11 @@ impl<T> AtomicBucket<T> {
     /// Checks whether or not this bucket is empty.
     pub fn is_empty(&self) -> bool {
         let guard = &epoch_pin();
+        #[cfg(metrics_verif)]
+        metrics::verif::point("ie.load.pre", &[]);
         let tail = self.tail.load(Ordering::Acquire, guard);
+        #[cfg(metrics_verif)]
+        metrics::verif::point("ie.load.post", &[tail.as_raw() as i64]);
         if tail.is_null() {
             return true;
         }
@@ -216,8 +242,14 @@ impl<T> AtomicBucket<T> {
         let guard = &epoch_pin();
         loop {
             // Load the tail block, or install a new one.
+            #[cfg(metrics_verif)]
+            metrics::verif::point("push.load.pre", &[]);
             let mut tail = self.tail.load(Ordering::Acquire, guard);
+            #[cfg(metrics_verif)]
+            metrics::verif::point("push.load.post", &[tail.as_raw() as i64]);
             if tail.is_null() {
+                #[cfg(metrics_verif)]
+                metrics::verif::point("push.casnew.pre", &[]);
                 // No blocks at all yet.  We need to create one.
                 match self.tail.compare_exchange(
                     Shared::null(),
@@ -231,6 +263,8 @@ impl<T> AtomicBucket<T> {
                     // Somebody else beat us, so just update our pointer.
                     Err(e) => tail = e.current,
                 }
+                #[cfg(metrics_verif)]
+                metrics::verif::point("push.casnew.post", &[tail.as_raw() as i64]);
             }
 
             // We have a block now, so we need to try writing to it.
@@ -241,6 +275,8 @@ impl<T> AtomicBucket<T> {
                 Ok(_) => return,
                 // The block was full, so we've been given the value back and we need to install a new block.
                 Err(value) => {
+                    #[cfg(metrics_verif)]
+                    metrics::verif::point("push.casfull.pre", &[tail.as_raw() as i64]);
                     match self.tail.compare_exchange(
                         tail,
                         Owned::new(Block::new()),
@@ -251,7 +287,11 @@ impl<T> AtomicBucket<T> {
                         // We managed to install the block, so we need to link this new block to
                         // the nextious block.
                         Ok(ptr) => {
+                            #[cfg(metrics_verif)]
+                            metrics::verif::point("push.casfull.post", &[1, ptr.as_raw() as i64]);
                             let new_tail = unsafe { ptr.deref() };
+                            #[cfg(metrics_verif)]
+                            metrics::verif::point("push.link.pre", &[ptr.as_raw() as i64, tail.as_raw() as i64]);
                             new_tail.next.store(tail, Ordering::Release);
 
                             // Now push into our new block.
@@ -303,7 +343,11 @@ impl<T> AtomicBucket<T> {
 
         // While we have a valid block -- either `tail` or the next block as we keep reading -- we
         // load the data from each block and process it by calling `f`.
+        #[cfg(metrics_verif)]
+        metrics::verif::point("rd.load.pre", &[]);
         let mut block_ptr = self.tail.load(Ordering::Acquire, guard);
+        #[cfg(metrics_verif)]
+        metrics::verif::point("rd.load.post", &[block_ptr.as_raw() as i64]);
         while !block_ptr.is_null() {
             let block = unsafe { block_ptr.deref() };
 
@@ -319,7 +363,11 @@ impl<T> AtomicBucket<T> {
             f(data);
 
             // Load the next block.
+            #[cfg(metrics_verif)]
+            metrics::verif::point("rd.next.pre", &[block_ptr.as_raw() as i64]);
             block_ptr = block.next.load(Ordering::Acquire, guard);
+            #[cfg(metrics_verif)]
+            metrics::verif::point("rd.next.post", &[block_ptr.as_raw() as i64]);
         }
     }
 
@@ -358,7 +406,15 @@ impl<T> AtomicBucket<T> {
         // still be in process of writing to the tail node, or reading the data, but new callers
         // will see it as empty until another write proceeds.
         let guard = &epoch_pin();
+        #[cfg(metrics_verif)]
+        metrics::verif::point("clr.load.pre", &[]);
         let mut block_ptr = self.tail.load(Ordering::Acquire, guard);
+        #[cfg(metrics_verif)]
+        metrics::verif::point("clr.load.post", &[block_ptr.as_raw() as i64]);
+        #[cfg(metrics_verif)]
+        if !block_ptr.is_null() {
+            metrics::verif::point("clr.cas.pre", &[block_ptr.as_raw() as i64]);
+        }
         if !block_ptr.is_null()
             && self
                 .tail
@@ -371,6 +427,8 @@ impl<T> AtomicBucket<T> {
                 )
                 .is_ok()
         {
+            #[cfg(metrics_verif)]
+            metrics::verif::point("clr.cas.post", &[1]);
             let backoff = Backoff::new();
             let mut freeable_blocks = Vec::new();
 
@@ -391,8 +449,12 @@ impl<T> AtomicBucket<T> {
                 f(data);
 
                 // Load the next block and take the shared reference to the current.
+                #[cfg(metrics_verif)]
+                metrics::verif::point("clr.next.pre", &[block_ptr.as_raw() as i64]);
                 let old_block_ptr =
                     mem::replace(&mut block_ptr, block.next.load(Ordering::Acquire, guard));
+                #[cfg(metrics_verif)]
+                metrics::verif::point("clr.next.post", &[block_ptr.as_raw() as i64]);
 
                 freeable_blocks.push(old_block_ptr);
                 if freeable_blocks.len() >= DEFERRED_BLOCK_BATCH_SIZE {
